@@ -137,10 +137,16 @@ def check_case(res: Res, p: dict, name: str, where: tuple[list, int], lay_seed: 
     # arrangement of the message are not part of it, so the text is searched rather than matched against one format.
     locs = [(m.group("file"), int(m.group("line")), int(m.group("col")) if m.group("col") is not None else None) for m in LOC_RE.finditer(etext)]
     locs = [l for l in locs if l[0].endswith(".s")]
+    want_col = None if kind == "node" else want_text.index(marker) + moff
     if not locs:
+        # another arrangement of the message: the file name, the line number and (lexical errors) the column still have to be in it
+        nums = {int(x) for x in re.findall(r"(?<![\w.])-?\d+(?![\w.])", etext)}
+        base = fname.rsplit("/", 1)[-1]
+        if base in etext and any(line + k in nums for k in range(span)) and (want_col is None or want_col in nums):
+            res.count("location_found_in_free_form_message")
+            return
         res.violate("no-location", f"{name}: the error carries no <file>:<line> location: {etext[:200]!r}", wit)
         return
-    want_col = None if kind == "node" else want_text.index(marker) + moff
     good = [l for l in locs if l[0] == fname and line <= l[1] < line + span and (want_col is None or l[2] == want_col)]
     if not good:
         got = locs[0]
